@@ -582,6 +582,9 @@ class Lower:
     def ex_CXXDefaultArgExpr(self, n):
         raise LowerError("CXXDefaultArgExpr must be resolved at the call")
 
+    def ex_ImplicitValueInitExpr(self, n):
+        return '((%s)0)' % self.types.ctype(qt(n))
+
     def ex_CXXScalarValueInitExpr(self, n):
         return '((%s)0)' % self.types.ctype(qt(n))
 
@@ -795,7 +798,9 @@ class Lower:
         if cls == 'umap':
             m = self.types.mangle(t.args[0]) + '_' + self.types.mangle(t.args[1])
             self.types.ctype(t)
-            if name in ('size', 'clear', 'end', 'begin'):
+            if name == 'end':
+                return '((struct pair_%s *)0)' % m
+            if name in ('size', 'clear', 'begin'):
                 return 'umap_%s__%s(%s)' % (m, name, optr)
             if name == 'find':
                 return 'umap_%s__find(%s, %s)' % (m, optr, self.ref_arg(args[0], 'const X &') if False else self.addr(self.ex(args[0])))
@@ -912,6 +917,14 @@ class Lower:
             if name == 'operator[]':
                 return '(*umap_%s__index(%s, %s))' % (m, self.addr(self.ex(a0)), self.addr(self.ex(args[1])))
             raise LowerError("unordered_map " + name)
+        if cls == 'iter':
+            if name in ('operator!=', 'operator=='):
+                return '(%s %s %s)' % (self.ex(a0), name[-2:], self.ex(args[1]))
+            if name == 'operator->':
+                return self.ex(a0)
+            if name == 'operator*':
+                return '(*%s)' % self.ex(a0)
+            raise LowerError('iterator ' + name)
         if cls == 'uptr':
             if name == 'operator->':
                 return self.ex(a0)
